@@ -15,6 +15,9 @@
           graph baked into the emitted code, P2 the harness's own partition of G1
      {"e":"sim","prog":P,"verdict":"ok"|"panic"|"env","msg":..}   simulator builder (flow.sim().compiled());
           "env" = cargo's shared build directory was disturbed (tool error, not a verdict)
+     {"e":"run","prog":P,"verdict":"ok"|"panic"|"absent","outs":..}
+          single-location programs: the emitted function instantiated with channel inputs and run
+          for 4 ticks by the harness ("absent": nothing was emitted/compiled for it)
      {"e":"eof"}
 
    Rules are collected (not fatal) as <<program, rule>> in `viol` and printed at eof.  Rule name
@@ -105,6 +108,16 @@ TSim ==
     /\ seen' = seen \cup {<<Ev.prog, "sim">>}
     /\ cur' = Ev.prog /\ UNCHANGED <<exp, need, stats>>
 
+\* --- the emitted dataflow of a single-location program, instantiated and run for a few ticks
+TRun ==
+    /\ Ev.e = "run" /\ Known(Ev.prog)
+    /\ bad' = (IF exp[Ev.prog] = "ok"
+               THEN Rule(Ev.verdict = "panic", "C41:emitted-dataflow-panics-when-run")
+               ELSE {})
+    /\ facts' = {}
+    /\ seen' = seen \cup {<<Ev.prog, "run">>}
+    /\ cur' = Ev.prog /\ UNCHANGED <<exp, need, stats>>
+
 Missing == {<<p, b>> \in UNION {{<<q, c>> : c \in need[q]} : q \in DOMAIN need} : <<p, b>> \notin seen}
 TEof ==
     /\ Ev.e = "eof"
@@ -115,7 +128,7 @@ TEof ==
 
 TNext ==
     /\ Consume
-    /\ (TTerm \/ TProd \/ TGraph \/ TSim \/ TEof)
+    /\ (TTerm \/ TProd \/ TGraph \/ TSim \/ TRun \/ TEof)
     /\ viol' = viol \cup {<<cur', b>> : b \in bad'} \cup {<<cur', "NOTE:" \o f>> : f \in facts'}
 
 TSpec == TInit /\ [][TNext]_tvars
